@@ -556,6 +556,23 @@ func init() {
 					mk(randomCuts(r, a), randomCuts(r, u), rbufs[i%len(rbufs)], "true")
 				}
 			}
+			// over real TCP: a reply that is cut off at a byte count that is not a multiple of the cipher block (the peer closes), then
+			// the next call on a new connection with its replies in pieces: nothing of the aborted reply may survive
+			for i := 0; i < tierPick(tier, 12, 120); i++ {
+				sc := tcpSession(r)
+				sc.rbuf = []int{1, 4, 64, 2048}[i%4]
+				crcOn := sc.useCRC()
+				pc0, pc1 := newPeerConn(sc.key), newPeerConn(sc.key)
+				a0, u0 := pc0.reply(authReply(10), crcOn), pc0.reply(sizedReply(2+i%3, crcOn, 1), crcOn)
+				a1, u1 := pc1.reply(authReply(10), crcOn), pc1.reply(sizedReply(1+i%3, crcOn, 2), crcOn)
+				cutAt := 1 + r.intn(len(u0)-1)
+				if i%4 != 0 && cutAt%32 == 0 {
+					cutAt++
+				}
+				sc.conns = [][]reaction{{answer(a0), {pieces: []piece{{data: u0[:cutAt]}}, eof: true}}, {answer(randomCuts(r, a1)...), answer(randomCuts(r, u1)...)}}
+				sc.calls = []string{nonceRequest(1), nonceRequest(2)}
+				emit(sc.line())
+			}
 			for _, blocks := range []int{2048, 2049} {
 				a, u := replies(blocks, "true")
 				for _, rb := range []int{1, 2048, 2049} {
@@ -891,6 +908,25 @@ func init() {
 					data = data[k:]
 				}
 				mk(to, []reaction{answer(a), {pieces: ps}})
+			}
+			// over real TCP: Disconnect on a client that has no connection (fresh, twice, after a failed call), then a call against a
+			// silent device - it must still come back after the receive timeout
+			for i := 0; i < tierPick(tier, 6, 24); i++ {
+				sc := tcpSession(r)
+				pcA, pcB := newPeerConn(sc.key), newPeerConn(sc.key)
+				silent := func(pc *peerConn) []reaction { return []reaction{answer(pc.reply(authReply(10), sc.useCRC())), {}} }
+				switch i % 3 {
+				case 0:
+					sc.calls = []string{"disc", nonceRequest(1)}
+					sc.conns = [][]reaction{silent(pcA)}
+				case 1:
+					sc.calls = []string{"disc", "disc", nonceRequest(1), "disc", "disc"}
+					sc.conns = [][]reaction{silent(pcA)}
+				default:
+					sc.calls = []string{nonceRequest(1), "disc", "disc", nonceRequest(2)}
+					sc.conns = [][]reaction{silent(pcA), silent(pcB)}
+				}
+				emit(sc.line())
 			}
 			// a Read that returns (0, nil) - io.Reader allows it, TCP does not do it: the call fails at once and the connection
 			// stays open (receive returns without Disconnect); before any data, inside the authentication reply, inside the user
